@@ -1616,7 +1616,24 @@ def fold(t, assume, discr=None, helpers=None, evalcalls=None):
                         if not _pat_matches(pk_, sc):
                             continue
                     except Undecided:
-                        return ("match", sc, tuple((p, g_, f(b)) for p, g_, b in arms_[i_:]))
+                        # this arm may or may not match: arms after it that definitely do not are dropped; if everything that can
+                        # still be taken gives one and the same value, that is the value
+                        rest_arms = [(pk_, g, f(body))]
+                        for p2, g2, b2 in arms_[i_ + 1:]:
+                            try:
+                                m2 = _pat_matches(p2, sc)
+                            except Undecided:
+                                m2 = None
+                            if m2 is False:
+                                continue
+                            rest_arms.append((p2, g2, f(b2)))
+                            if m2 is True and g2 is None:
+                                break       # a definite match: nothing after it is reached
+                        vals_ = {b_ for _, g_, b_ in rest_arms}
+                        if len(vals_) == 1 and not any(("var", nm_) in set(subterms(next(iter(vals_)))) for p_, _, _ in rest_arms
+                                                       for nm_ in (getattr(p_, "paths", None) or {})):
+                            return next(iter(vals_))
+                        return ("match", sc, tuple(rest_arms))
                     binds = getattr(pk_, "binds", None)
                     m_ = {}
                     if sc[0] == "ctor" and isinstance(binds, tuple) and len(binds) == len(sc[2]):
